@@ -140,3 +140,40 @@ proof fn lemma_args_src_extend(all: Seq<Token>, input: &str, a: int, b: int, b2:
         }
     }
 }
+
+/// all[a..b) is one data-row entry (C12: the separators of `bits(k, e)` and the parentheses of `(e)` are present; the
+/// width of a `bits` entry is the literal written in the text)
+spec fn entry_src(all: Seq<Token>, input: &str, a: int, b: int, d: DataEntry) -> bool {
+    &&& 0 <= a < b <= all.len()
+    &&& match d {
+        DataEntry::Number(n) => b == a + 1 && tk_is_number(all[a].kind) && lit_value(tok_text(input, all[a].span), all[a].kind) == Some(n),
+        DataEntry::Expr(e) => a + 2 < b && all[a].kind == TokenKind::LParen && all[b - 1].kind == TokenKind::RParen && expr_src(all, input, a + 1, b - 1, e),
+        DataEntry::Bits { number, expr } => a + 6 <= b && all[a].kind == TokenKind::Bits && all[a + 1].kind == TokenKind::LParen
+            && tk_is_number(all[a + 2].kind) && lit_value(tok_text(input, all[a + 2].span), all[a + 2].kind) == Some(number as i64) // the width is the literal
+            && all[a + 3].kind == TokenKind::Comma && expr_src(all, input, a + 4, b - 1, expr) && all[b - 1].kind == TokenKind::RParen,
+        DataEntry::X | DataEntry::Z | DataEntry::C => b == a + 1 && all[a].kind == TokenKind::Ident,
+    }
+}
+/// cuts[i]..cuts[i+1] is the source of data[i]; entries follow one another without anything in between
+spec fn row_src_c(all: Seq<Token>, input: &str, cuts: Seq<int>, data: Seq<DataEntry>) -> bool {
+    &&& cuts.len() == data.len() + 1
+    &&& forall|i: int| #[trigger] wi(i) && 0 <= i < data.len() ==> entry_src(all, input, cuts[i], cuts[i + 1], data[i])
+}
+/// all[a..b) is a data row with these entries
+spec fn row_src(all: Seq<Token>, input: &str, a: int, b: int, data: Seq<DataEntry>) -> bool {
+    exists|cuts: Seq<int>| #[trigger] wcuts(cuts) && cuts.len() >= 1 && cuts[0] == a && cuts.last() == b && row_src_c(all, input, cuts, data)
+}
+proof fn lemma_row_src_extend(all: Seq<Token>, input: &str, cuts: Seq<int>, data: Seq<DataEntry>, b2: int, d: DataEntry)
+    requires row_src_c(all, input, cuts, data), cuts.len() >= 1, entry_src(all, input, cuts.last(), b2, d)
+    ensures row_src_c(all, input, cuts.push(b2), data.push(d))
+{
+    let c2 = cuts.push(b2);
+    let d2 = data.push(d);
+    assert forall|i: int| #[trigger] wi(i) && 0 <= i < d2.len() implies entry_src(all, input, c2[i], c2[i + 1], d2[i]) by {
+        if i < data.len() {
+            assert(c2[i] == cuts[i] && c2[i + 1] == cuts[i + 1] && d2[i] == data[i]);
+        } else {
+            assert(c2[i] == cuts.last() && c2[i + 1] == b2 && d2[i] == d);
+        }
+    }
+}
